@@ -283,7 +283,7 @@ theorem mid_run {g : MCfg} (ok : g.OK) : ∀ (A : Nat) (c : Conn) (n fuel : Nat)
     obtain ⟨hsame, hph, hsc, hstop, hmx, hsg, hwk⟩ := prePoll_same c n hsegs
     have hst0 := hst.cong hph hsc hstop hmx hsame
     obtain ⟨c', r, hh, hl, ho⟩ := mstage_poll ok hst0 (hsame.em.trans hem)
-    have hpoll := hh.poll (F := 100000) (by rw [hsame.input]; exact hlen)
+    have hpoll := hh.pollT (by rw [hsame.input]; exact hlen)
     have hans0 : ans (prePoll c n none).env.tr = ans c.env.tr := by unfold ans; rw [hsame.rd, hsame.wr]
     rw [runTask_succ, hpoll]
     rcases ho with ⟨rfl, _, _, ha⟩ | ⟨rfl, hfin⟩
@@ -295,7 +295,7 @@ theorem mid_run {g : MCfg} (ok : g.OK) : ∀ (A : Nat) (c : Conn) (n fuel : Nat)
     obtain ⟨hsame, hph, hsc, hstop, hmx, hsg, hwk⟩ := prePoll_same c n hsegs
     have hst0 := hst.cong hph hsc hstop hmx hsame
     obtain ⟨c', r, hh, hl, ho⟩ := mstage_poll ok hst0 (hsame.em.trans hem)
-    have hpoll := hh.poll (F := 100000) (by rw [hsame.input]; exact hlen)
+    have hpoll := hh.pollT (by rw [hsame.input]; exact hlen)
     have hans0 : ans (prePoll c n none).env.tr = ans c.env.tr := by unfold ans; rw [hsame.rd, hsame.wr]
     rw [runTask_succ, hpoll]
     rcases ho with ⟨rfl, hst', hw, ha⟩ | ⟨rfl, hfin⟩
@@ -339,7 +339,7 @@ theorem mid_run_start {g : MCfg} (ok : g.OK) {c : Conn} {n fuel : Nat}
       hstop1, hsame.ben hb, hremle, Or.inr ⟨_, rfl, by show c0.env.tr.wlog ++ _ = _; rw [hsame.wlog, hlog]⟩⟩
   have hres := mparse_poll ok hst (hsame.em.trans hem) (hsc0.trans hsc) (hmx.trans hm) (hsame.hs.trans hev)
   obtain ⟨c', r, hh, hl, ho⟩ := MRes.of_steps (Steps.one hstep') (mkC_link c0 _ (.refl _)) hres
-  have hpoll := hh.poll (F := 100000) (by
+  have hpoll := hh.pollT (by
     show 1 + (2 * c0.env.tr.input.length + 6) ≤ 100000
     rw [hsame.input]; omega)
   have hans0 : ans c0.env.tr = ans c.env.tr := by unfold ans; rw [hsame.rd, hsame.wr]
